@@ -4,6 +4,7 @@ import LyModel.XmlTree.OpaqTag
 import LyModel.XmlTree.OpaqFaithful
 import LyModel.XmlTree.DataFaithful
 import LyModel.XmlTree.ScopeFaithful
+import LyModel.XmlTree.SpecScopeLemmas
 import LyModel.Generated.JsonTyping
 import LyModel.JsonTree.Refine
 import LyModel.JsonTree.Faithful
@@ -419,6 +420,18 @@ theorem xml_document_faithful_meta_scoped (fx : Fixes) (hn : fx.numbered = true)
     (h : dataOk fx forest = true) :
     ∃ es, XmlDoc.parseDocS (printDData fx forest) = some es ∧ XmlDoc.eraseL es = dviewList forest ∧ DScopeOkL forest es :=
   parseDocS_printDData_scoped fx hn hr forest h
+
+/-- **The scoped reader is the plain reader plus one field** — for EVERY byte string, well-formed or not, no printer involved: the
+    plain reader's verdict and result are the scoped reader's with the in-scope namespaces erased.  So (d′) implies (d), whatever
+    `parseDocS` accepts `parseDoc` accepts with the same elements, and the cross-check of `parseDoc` against expat on every run
+    covers `parseDocS` as well. -/
+theorem scoped_reader_erases_to_plain (d : Bytes) : XmlDoc.parseDoc d = (XmlDoc.parseDocS d).map XmlDoc.eraseL :=
+  XmlDoc.parseDoc_eq_erase d
+
+/-- non-vacuity: an accepted document with a re-bound prefix, and a rejected one (undeclared prefix): both readers agree -/
+example : (XmlDoc.parseDocS (bytesOfString "<a xmlns=\"o\" xmlns:p=\"1\"><b xmlns:p=\"2\" p:k=\"p:v\"/></a>")).isSome = true ∧
+    (XmlDoc.parseDocS (bytesOfString "<a q:k=\"1\"/>")).isSome = false ∧
+    (XmlDoc.parseDoc (bytesOfString "<a q:k=\"1\"/>")).isSome = false := by decide +kernel
 
 open XmlTree in
 /-- **(e) Prefixes inside values keep their meaning.**  In the start tag of any data node satisfying `tagOkB` (the per-tag part
